@@ -140,7 +140,7 @@ structure Core (n : Nat) (s : LS) : Prop where
   scr : ScratchOK n s.sc
   bestWf : s.bestPerm.WF
   bestLen : s.bestPerm.len = n
-  bestPerm : s.currentBest.len ≠ 0 → s.bestPerm.toList.Perm (List.range n)
+  bestPerm : 0 < s.count → s.bestPerm.toList.Perm (List.range n)
 
 /-- like `LevelsOK`, but the top level is in the middle of its `jLoop`: `choices.head = st + k` for the loop counter `k` -/
 def TopOK (op : OP) (k : Nat) : List Nat → List Nat → List (Nat × Nat) → Prop
@@ -158,9 +158,11 @@ theorem TopOK_frame {op op' : OP} {A : Int} (h : ∀ a : Int, a ≤ A → oldDiv
     obtain ⟨h1, h2, h3, h4, h5⟩ := ht
     exact ⟨(IsBinAt_frame (h _ (by omega)) st sz).2 h1, h2, h3, h4, LevelsOK_frame h ps cs ls (by omega) h5⟩
 
-/-- the frame of the stepping loops: only `op`, `path`, `choices`, `skipDeage` change -/
+/-- the frame of the stepping loops: only `op`, `path`, `choices`, `skipDeage` and (through path compression in the
+Heuristic-2 scan) `bestOrbits` change -/
 def StepFrame (s s' : LS) : Prop :=
-  s' = { s with op := s'.op, path := s'.path, choices := s'.choices, skipDeage := s'.skipDeage }
+  s' = { s with op := s'.op, path := s'.path, choices := s'.choices, skipDeage := s'.skipDeage,
+                bestOrbits := s'.bestOrbits }
 
 theorem StepFrame.refl (s : LS) : StepFrame s s := rfl
 
@@ -178,6 +180,45 @@ theorem Core.of_frame {n : Nat} {s s' : LS} (hc : Core n s) (hf : StepFrame s s'
   · rw [hf]; exact hc.bestWf
   · rw [hf]; exact hc.bestLen
   · rw [hf]; exact hc.bestPerm
+
+
+theorem compress_size (tmp : Nat) : ∀ (xs : List Nat) (ds : Disjoint.DS), (Disjoint.compress ds tmp xs).size = ds.size := by
+  intro xs
+  induction xs with
+  | nil => intro ds; rfl
+  | cons x xs ih =>
+    intro ds
+    have : Disjoint.compress ds tmp (x :: xs) = Disjoint.compress (ds.setIfInBounds x (tmp : Int)) tmp xs := rfl
+    rw [this, ih]; simp
+
+/-- `Find` never changes the size of the array -/
+theorem find_size {ds d' : Disjoint.DS} {x r : Nat} (h : Disjoint.find ds x = .ok (d', r)) : d'.size = ds.size := by
+  unfold Disjoint.find Disjoint.findF at h
+  osplit h
+  · cases h; rfl
+  · cases h; exact compress_size _ _ _
+
+theorem orbitScan_size (order : Sl Nat) (rep : Nat) : ∀ (c k : Nat) (ds ds' : Disjoint.DS) (b : Bool),
+    orbitScan order rep c k ds = .ok (b, ds') → ds'.size = ds.size := by
+  intro c
+  induction c with
+  | zero => intro k ds ds' b h; simp [orbitScan] at h; rw [h.2]
+  | succ c ih =>
+    intro k ds ds' b h
+    rw [orbitScan] at h
+    osplit h
+    · rename_i _ _ _ _ d1 r hf _
+      cases h; exact find_size hf
+    · rename_i _ _ _ _ d1 r hf _
+      rw [ih _ _ _ _ h]; exact find_size hf
+
+theorem h2Best_size {op : OP} {ds ds' : Disjoint.DS} {cp ce : Nat} {b : Bool}
+    (h : h2Best op ds cp ce = .ok (b, ds')) : ds'.size = ds.size := by
+  unfold h2Best at h
+  osplit h
+  rename_i _ _ _ _ d1 rep hf
+  rw [orbitScan_size _ _ _ _ _ _ _ h]; exact find_size hf
+
 
 /-- an additional invariant of the partition carried through the stepping loops (used for the certificate): `QA` holds at
 all times, `QN` after a `deage` and before every `splitBin`; `cb`, `fl` are `currentBest`, `firstLeaf` (unchanged by the
@@ -197,13 +238,13 @@ theorem maybeDeage_spec {n : Nat} {nb : Nbrs} {cb fl : Sl Nat} {QA QN : OP → P
     (hage : s.op.age + (if s.skipDeage then 1 else 0) = s.path.length)
     (hA : QA s.op) (hN : s.skipDeage = true → QN s.op) (h : maybeDeage s = .ok s') :
     Core n s' ∧ TopOK s'.op k s'.path s'.choices lv ∧ s'.op.age + 1 = s'.path.length ∧ s'.skipDeage = false ∧
-      s'.path = s.path ∧ s'.choices = s.choices ∧ StepFrame s s' ∧ QN s'.op := by
+      s'.path = s.path ∧ s'.choices = s.choices ∧ StepFrame s s' ∧ QN s'.op ∧ s'.bestOrbits = s.bestOrbits := by
   unfold maybeDeage at h
   by_cases hsk : s.skipDeage = true
   · simp only [hsk, Bool.not_true, Bool.false_eq_true, if_false] at h
     cases h
     simp only [hsk, if_true] at hage
-    exact ⟨Core.of_frame hc rfl hc.part hc.age, ht, hage, rfl, rfl, rfl, rfl, hN hsk⟩
+    exact ⟨Core.of_frame hc rfl hc.part hc.age, ht, hage, rfl, rfl, rfl, rfl, hN hsk, rfl⟩
   · have hsk' : s.skipDeage = false := by simpa using hsk
     simp only [hsk', Bool.not_false, if_true] at h
     simp only [hsk', Bool.false_eq_true, if_false, Int.add_zero] at hage
@@ -216,7 +257,7 @@ theorem maybeDeage_spec {n : Nat} {nb : Nbrs} {cb fl : Sl Nat} {QA QN : OP → P
         match hp : s.path, hc' : s.choices, hl : lv, ht with
         | _ :: ps, c :: cs, (st, sz) :: ls, _ => simp
       obtain ⟨d1, d2, d3, d4, _⟩ := deage_inv hc.part hc.age (by omega) hd
-      refine ⟨Core.of_frame hc rfl d1 d2, ?_, ?_, rfl, rfl, rfl, ?_, hq.deage _ _ hc.part hc.age (by omega) hA hd⟩
+      refine ⟨Core.of_frame hc rfl d1 d2, ?_, ?_, rfl, rfl, rfl, ?_, hq.deage _ _ hc.part hc.age (by omega) hA hd, rfl⟩
       · exact TopOK_frame (fun a ha => oldDivs_of_filter d4 a ha) k _ _ _ (by simp only; omega) ht
       · simp only; omega
       · unfold StepFrame; simp
@@ -248,14 +289,15 @@ theorem jLoop_spec {n : Nat} {nb : Nbrs} {cb fl : Sl Nat} {QA QN : OP → Prop} 
       (b = true → LevelsOK s'.op s'.path s'.choices lv ∧ s'.op.age = s'.path.length ∧ s'.skipDeage = false) ∧
       (b = false → TopOK s'.op 0 s'.path s'.choices lv ∧
         s'.op.age + (if s'.skipDeage then 1 else 0) = s'.path.length) ∧
-      (b = true → QN s'.op) ∧ (b = false → QA s'.op ∧ (s'.skipDeage = true → QN s'.op)) := by
+      (b = true → QN s'.op) ∧ (b = false → QA s'.op ∧ (s'.skipDeage = true → QN s'.op)) ∧
+      s'.bestOrbits.size = s.bestOrbits.size := by
   intro k
   induction k with
   | zero =>
     intro s lv b s' hc ht hage hcb hfl hA hN h
     simp [jLoop] at h
     obtain ⟨rfl, rfl⟩ := h
-    exact ⟨hc, StepFrame.refl _, rfl, by simp, fun _ => ⟨ht, hage⟩, by simp, fun _ => ⟨hA, hN⟩⟩
+    exact ⟨hc, StepFrame.refl _, rfl, by simp, fun _ => ⟨ht, hage⟩, by simp, fun _ => ⟨hA, hN⟩, rfl⟩
   | succ j ih =>
     intro s lv b s' hc ht hage hcb hfl hA hN h
     rw [jLoop] at h
@@ -265,7 +307,7 @@ theorem jLoop_spec {n : Nat} {nb : Nbrs} {cb fl : Sl Nat} {QA QN : OP → Prop} 
     | ok s1 =>
       rw [hm] at h
       simp only at h
-      obtain ⟨c1, t1, a1, k1, p1, ch1, f1, n1⟩ := maybeDeage_spec hq hc ht hage hA hN hm
+      obtain ⟨c1, t1, a1, k1, p1, ch1, f1, n1, bo1⟩ := maybeDeage_spec hq hc ht hage hA hN hm
       have hcb1 : s1.currentBest = cb := by rw [f1]; exact hcb
       have hfl1 : s1.firstLeaf = fl := by rw [f1]; exact hfl
       -- shapes
@@ -302,30 +344,43 @@ theorem jLoop_spec {n : Nat} {nb : Nbrs} {cb fl : Sl Nat} {QA QN : OP → Prop} 
               have frame2 : StepFrame s { s1 with choices := (c - 1) :: cs } := by
                 unfold StepFrame at f1 ⊢; rw [f1]
               -- common continuation for the two Heuristic-2 skips
-              have hskip : ∀ (b : Bool) (s' : LS),
-                  jLoop nb j { s1 with path := p :: ps, choices := (c - 1) :: cs, skipDeage := true } = .ok (b, s') →
+              have hskip : ∀ (bo : Disjoint.DS) (b : Bool) (s' : LS), bo.size = s1.bestOrbits.size →
+                  jLoop nb j { s1 with path := p :: ps, choices := (c - 1) :: cs, skipDeage := true, bestOrbits := bo } = .ok (b, s') →
                   Core n s' ∧ StepFrame s s' ∧ s'.path.length = s.path.length ∧
                   (b = true → LevelsOK s'.op s'.path s'.choices ((st, sz) :: ls) ∧ s'.op.age = s'.path.length ∧ s'.skipDeage = false) ∧
                   (b = false → TopOK s'.op 0 s'.path s'.choices ((st, sz) :: ls) ∧
                     s'.op.age + (if s'.skipDeage then 1 else 0) = s'.path.length) ∧
-                  (b = true → QN s'.op) ∧ (b = false → QA s'.op ∧ (s'.skipDeage = true → QN s'.op)) := by
-                intro b s' hj
-                have hfr : StepFrame s { s1 with path := p :: ps, choices := (c - 1) :: cs, skipDeage := true } := by
+                  (b = true → QN s'.op) ∧ (b = false → QA s'.op ∧ (s'.skipDeage = true → QN s'.op)) ∧
+                  s'.bestOrbits.size = s.bestOrbits.size := by
+                intro bo b s' hbo hj
+                have hfr : StepFrame s { s1 with path := p :: ps, choices := (c - 1) :: cs, skipDeage := true, bestOrbits := bo } := by
                   unfold StepFrame at f1 ⊢; rw [f1]
-                obtain ⟨r1, r2, r3, r4, r5, r6, r7⟩ := ih { s1 with path := p :: ps, choices := (c - 1) :: cs, skipDeage := true } ((st, sz) :: ls) b s'
+                obtain ⟨r1, r2, r3, r4, r5, r6, r7, r8⟩ := ih { s1 with path := p :: ps, choices := (c - 1) :: cs, skipDeage := true, bestOrbits := bo } ((st, sz) :: ls) b s'
                   (Core.of_frame hc hfr c1.part c1.age)
                   (by
                     simp only [TopOK]
                     exact ⟨tb, tsz, by omega, by omega, tl⟩)
                   (by simp only [if_true, List.length_cons]; omega) hcb1 hfl1 (hq.na _ n1) (fun _ => n1) hj
-                refine ⟨r1, hfr.trans r2, ?_, r4, r5, r6, r7⟩
+                refine ⟨r1, hfr.trans r2, ?_, r4, r5, r6, r7, by rw [r8]; show bo.size = _; rw [hbo, bo1]⟩
                 rw [r3]; simp only; rw [← p1, hpath]
               split at h
               · -- first Heuristic 2 test: skip
-                exact hskip b s' h
-              · split at h
-                · exact hskip b s' h
+                exact hskip _ b s' rfl h
+              · have hbosz : ∀ (bb : Bool) (bo : Disjoint.DS),
+                    (if (decide (s1.count > 0) && !hasPrefix s1.flPath.toList ps.reverse &&
+                        hasPrefix s1.bestPath.toList ps.reverse) = true
+                      then h2Best s1.op s1.bestOrbits (c - 1) ce else Outcome.ok (false, s1.bestOrbits)) = .ok (bb, bo) →
+                    bo.size = s1.bestOrbits.size := by
+                  intro bb bo hh
+                  split at hh
+                  · exact h2Best_size hh
+                  · cases hh; rfl
+                split at h
+                · rename_i bo hh
+                  exact hskip bo b s' (hbosz _ _ hh) h
                 · -- splitBin
+                  rename_i bo hh
+                  have hbo := hbosz _ _ hh
                   cases hsp : splitBin nb s1.currentBest s1.firstLeaf s1.op (c - 1) with
                   | panic => rw [hsp] at h; simp at h
                   | outOfFuel => rw [hsp] at h; simp at h
@@ -336,7 +391,7 @@ theorem jLoop_spec {n : Nat} {nb : Nbrs} {cb fl : Sl Nat} {QA QN : OP → Prop} 
                     obtain ⟨q1, q2, q3, q4, _⟩ := splitBin_inv c1.part c1.age hin hns hsp
                     have hsp' : splitBin nb cb fl s1.op (c - 1) = .ok (worse, op') := by rw [← hcb1, ← hfl1]; exact hsp
                     obtain ⟨qn, qa⟩ := hq.split _ _ _ _ c1.part c1.age hin hns n1 hsp'
-                    have hfr3 : StepFrame s { s1 with choices := (c - 1) :: cs, op := op', path := j :: ps } := by
+                    have hfr3 : StepFrame s { s1 with choices := (c - 1) :: cs, op := op', path := j :: ps, bestOrbits := bo } := by
                       unfold StepFrame at f1 ⊢; rw [f1]
                     have hfrm : ∀ a : Int, a ≤ s1.op.age + 1 → oldDivs a op' = oldDivs a s1.op :=
                       fun a ha => oldDivs_of_ne q4 a ha
@@ -345,18 +400,18 @@ theorem jLoop_spec {n : Nat} {nb : Nbrs} {cb fl : Sl Nat} {QA QN : OP → Prop} 
                       (IsBinAt_frame (hfrm _ (by omega)) st sz).2 tb
                     by_cases hw : worse = true
                     · rw [if_pos hw] at h
-                      obtain ⟨r1, r2, r3, r4, r5, r6, r7⟩ := ih _ ((st, sz) :: ls) b s' (Core.of_frame hc hfr3 q1 q2)
+                      obtain ⟨r1, r2, r3, r4, r5, r6, r7, r8⟩ := ih _ ((st, sz) :: ls) b s' (Core.of_frame hc hfr3 q1 q2)
                         (by
                           simp only [TopOK]
                           exact ⟨hbin', tsz, by omega, by omega, hlev⟩)
                         (by simp only [k1, Bool.false_eq_true, if_false, List.length_cons]; omega) hcb1 hfl1 (qa hw)
                         (by simp only [k1]; intro hc; cases hc) h
-                      refine ⟨r1, hfr3.trans r2, ?_, r4, r5, r6, r7⟩
+                      refine ⟨r1, hfr3.trans r2, ?_, r4, r5, r6, r7, by rw [r8]; show bo.size = _; rw [hbo, bo1]⟩
                       rw [r3]; simp only [List.length_cons]; rw [← p1, hpath]; simp
                     · rw [if_neg hw] at h
                       simp at h
                       obtain ⟨rfl, rfl⟩ := h
-                      refine ⟨Core.of_frame hc hfr3 q1 q2, hfr3, ?_, ?_, by simp, fun _ => qn (by simpa using hw), by simp⟩
+                      refine ⟨Core.of_frame hc hfr3 q1 q2, hfr3, ?_, ?_, by simp, fun _ => qn (by simpa using hw), by simp, by show bo.size = _; rw [hbo, bo1]⟩
                       · simp only [List.length_cons]; rw [← p1, hpath]; simp
                       · intro _
                         refine ⟨?_, ?_, k1⟩
@@ -383,7 +438,7 @@ theorem stepLoop_spec {n : Nat} {nb : Nbrs} {cb fl : Sl Nat} {QA QN : OP → Pro
     ∃ lv', Core n s' ∧ StepFrame s s' ∧ LevelsOK s'.op s'.path s'.choices lv' ∧
       s'.op.age + (if s'.skipDeage then 1 else 0) = s'.path.length ∧
       (b = true → s'.skipDeage = false) ∧ (b = false → s'.path = []) ∧
-      (b = true → QN s'.op) ∧ QA s'.op := by
+      (b = true → QN s'.op) ∧ QA s'.op ∧ s'.bestOrbits.size = s.bestOrbits.size := by
   intro k
   induction k with
   | zero =>
@@ -392,7 +447,7 @@ theorem stepLoop_spec {n : Nat} {nb : Nbrs} {cb fl : Sl Nat} {QA QN : OP → Pro
     split at h
     · rename_i hp
       cases h
-      exact ⟨lv, hc, StepFrame.refl _, hl, hage, by simp, fun _ => hp, by simp, hA⟩
+      exact ⟨lv, hc, StepFrame.refl _, hl, hage, by simp, fun _ => hp, by simp, hA, rfl⟩
     · cases h
   | succ k ih =>
     intro s lv b s' hc hl hage hcb hfl hA hN h
@@ -400,7 +455,7 @@ theorem stepLoop_spec {n : Nat} {nb : Nbrs} {cb fl : Sl Nat} {QA QN : OP → Pro
     split at h
     · rename_i hp
       cases h
-      exact ⟨lv, hc, StepFrame.refl _, hl, hage, by simp, fun _ => hp, by simp, hA⟩
+      exact ⟨lv, hc, StepFrame.refl _, hl, hage, by simp, fun _ => hp, by simp, hA, rfl⟩
     · rename_i p ps hp
       rw [hp] at hl
       have ht := LevelsOK_top hl
@@ -411,13 +466,13 @@ theorem stepLoop_spec {n : Nat} {nb : Nbrs} {cb fl : Sl Nat} {QA QN : OP → Pro
       | ok r =>
         obtain ⟨b1, s1⟩ := r
         rw [hj] at h
-        obtain ⟨c1, f1, l1, t1, e1, n1, m1⟩ := jLoop_spec hq p s lv b1 s1 hc ht hage hcb hfl hA hN hj
+        obtain ⟨c1, f1, l1, t1, e1, n1, m1, z1⟩ := jLoop_spec hq p s lv b1 s1 hc ht hage hcb hfl hA hN hj
         cases b1 with
         | true =>
           simp only at h
           cases h
           obtain ⟨a1, a2, a3⟩ := t1 rfl
-          exact ⟨lv, c1, f1, a1, by rw [a3]; simpa using a2, fun _ => a3, by simp, fun _ => n1 rfl, hq.na _ (n1 rfl)⟩
+          exact ⟨lv, c1, f1, a1, by rw [a3]; simpa using a2, fun _ => a3, by simp, fun _ => n1 rfl, hq.na _ (n1 rfl), z1⟩
         | false =>
           simp only at h
           obtain ⟨t0, g0⟩ := e1 rfl
@@ -427,7 +482,7 @@ theorem stepLoop_spec {n : Nat} {nb : Nbrs} {cb fl : Sl Nat} {QA QN : OP → Pro
           | ok s2 =>
             rw [hm] at h
             simp only at h
-            obtain ⟨c2, t2, a2, k2, p2, ch2, f2, n2⟩ := maybeDeage_spec hq c1 t0 g0 (m1 rfl).1 (m1 rfl).2 hm
+            obtain ⟨c2, t2, a2, k2, p2, ch2, f2, n2, bo2⟩ := maybeDeage_spec hq c1 t0 g0 (m1 rfl).1 (m1 rfl).2 hm
             -- pop
             cases hpath : s2.path with
             | nil => rw [hpath] at t2; cases hcc : s2.choices <;> simp [TopOK] at t2
@@ -446,12 +501,12 @@ theorem stepLoop_spec {n : Nat} {nb : Nbrs} {cb fl : Sl Nat} {QA QN : OP → Pro
                     unfold StepFrame at this ⊢; rw [this]
                   have hcb2 : s2.currentBest = cb := by rw [f2, f1]; exact hcb
                   have hfl2 : s2.firstLeaf = fl := by rw [f2, f1]; exact hfl
-                  obtain ⟨lv', r1, r2, r3, r4, r5, r6, r7, r8⟩ := ih _ ls b s' (Core.of_frame hc hfr c2.part c2.age)
+                  obtain ⟨lv', r1, r2, r3, r4, r5, r6, r7, r8, r9⟩ := ih _ ls b s' (Core.of_frame hc hfr c2.part c2.age)
                     (by simp only [hpath, hch, List.drop_succ_cons, List.drop_zero]; exact t2.2.2.2.2)
                     (by simp only [k2, hpath, List.drop_succ_cons, List.drop_zero, Bool.false_eq_true, if_false]
                         rw [hpath] at a2; simp only [List.length_cons] at a2; omega)
                     hcb2 hfl2 (hq.na _ n2) (by simp only [k2]; intro hc; cases hc) h
-                  exact ⟨lv', r1, hfr.trans r2, r3, r4, r5, r6, r7, r8⟩
+                  exact ⟨lv', r1, hfr.trans r2, r3, r4, r5, r6, r7, r8, by rw [r9]; show s2.bestOrbits.size = _; rw [bo2, z1]⟩
 
 
 /-- `pickCell` finds the first non-singleton bin: its index `i'` is also its start position -/
